@@ -61,7 +61,7 @@ def gen(ctx):
         out.append({"id": len(out), "cfg": cfg, "steps": [s for s in h if s["act"] == "step"], "expect": h[-1]})
     ctx.extra["design_level"] = design
     # model-independent schedules (see vf.blind_schedules)
-    nb = 400 if ctx.tier == "quick" else 6000
+    nb = 400 if ctx.tier == "quick" else 4000
     for si, (prods, wanted, cancel) in enumerate(scs):
         threads = sorted(prods) + ["cons"] + (["cancel"] if cancel else [])
         for seq in vf.blind_schedules(ctx.rng, threads, nb, 10 + 5 * len(threads)):
@@ -84,7 +84,7 @@ def run_simple(ctx, replay=None):
         scripts = [rp["script"]]
     else:
         scripts = gen(ctx)
-    cap = 12000 if ctx.tier == "quick" else 150000
+    cap = 12000 if ctx.tier == "quick" else 80000
     ctx.extra["behaviours_enumerated"] = len(scripts)
     if len(scripts) > cap:
         scripts = ctx.rng.sample(scripts, cap)
